@@ -62,6 +62,49 @@ def body(run):
         d = same_stats(res['stats'], res1['stats'], 1e-9)
         if d:
             run.add_violation('comparison statistics depend on block size / thread count: ' + d, desc, signature=dict(kind='compare-blocks', forced_fine_grid=False))
+    # ---- bands with different footprints, many blocks: the statistics of EACH band are over the pixels valid in that band (a block that holds no
+    #      data in one band may hold data in the next)
+    from homonim import RasterCompare
+    for k in range(run.scale(3, 12)):
+        H, W = rng.randint(40, 56), rng.randint(40, 56)
+        off = (rng.randint(0, 2), rng.randint(0, 2))
+        g = synth.Geom(1.0, 1, 16.0, 48.0, (H + off[0] + 1, W + off[1] + 1), off, (H, W))
+        src = np.array([[[rng.randint(1, 60) for _ in range(W)] for _ in range(H)] for _ in range(2)], dtype='float32')
+        ref = np.array([[[rng.randint(1, 60) for _ in range(g.ref_shape[1])] for _ in range(g.ref_shape[0])] for _ in range(2)], dtype='float32')
+        valid = np.ones((2, H, W), bool)
+        side = ['west', 'north', 'east', 'south'][k % 4]
+        if side == 'west':
+            valid[0, :, :W // 2] = False
+        elif side == 'east':
+            valid[0, :, W // 2:] = False
+        elif side == 'north':
+            valid[0, :H // 2] = False
+        else:
+            valid[0, H // 2:] = False
+        sfn, rfn = run.work / 'bf_src.tif', run.work / 'bf_ref.tif'
+        synth.write_tif(sfn, np.where(valid, src, np.float32('nan')), g.src_transform)
+        synth.write_tif(rfn, ref, g.ref_transform)
+        mbm = H * W * 4 / 2 ** 20 / rng.choice([8, 16, 32])
+        threads = [1, 2][k % 2]
+        desc = dict(geom=g.describe(), bands=2, band_1_has_no_data_in=side, max_block_mem=mbm, threads=threads)
+        try:
+            with RasterCompare(sfn, rfn, src_bands=[1, 2], ref_bands=[1, 2], force=True) as rc:
+                stats = rc.process(threads=threads, max_block_mem=mbm)
+        except Exception as ex:
+            if type(ex).__name__ == 'BlockSizeError':
+                continue
+            raise
+        run.count_case(('bf', k), True, desc if k < 1 else None)
+        rows = [v for kk, v in stats.items() if kk != 'Mean']
+        for b in range(2):
+            x = src[b][valid[b]].astype('float64')
+            y = ref[b, off[0]:off[0] + H, off[1]:off[1] + W][valid[b]].astype('float64')
+            exp_n, exp_rmse = len(x), float(np.sqrt(np.mean((y - x) ** 2)))
+            got = rows[b] if b < len(rows) else {}
+            if int(got.get('n', -1)) != exp_n or abs(float(got.get('rmse', float('nan'))) - exp_rmse) > 1e-5 * (1 + exp_rmse):
+                run.add_violation(f'comparison statistic differs from its definition: band {b + 1}: N = {got.get("n")} RMSE = {got.get("rmse")}, definition N = {exp_n} RMSE = {exp_rmse}',
+                                  desc, signature=dict(kind='compare-def', what='N'))
+                break
     failing, nt = run.corr('compare', 'Corr.CheckC11', cases, shard=80)
     for k in failing[:5]:
         run.add_break('correspondence-break', 'RasterCompare.process differs from Stats.Compare on the jointly valid pixels', metas[k])
